@@ -1,5 +1,6 @@
 from __future__ import annotations
 
+import re
 import xml.dom.minidom as minidom
 from string import Formatter
 from typing import Any
@@ -136,6 +137,10 @@ def html_escape(text: object) -> str:
     if not isinstance(text, str):
         text = f"{text}"
 
+    # Characters outside XML's `Char` production cannot appear in a document,
+    # not even as character references; `ansi_escape` uses "?" as well.
+    text = _NOT_XML_CHAR.sub("?", text)
+
     return (
         text.replace("&", "&amp;")
         .replace("<", "&lt;")
@@ -144,5 +149,7 @@ def html_escape(text: object) -> str:
         .replace("'", "&apos;")
     )
 
+
+_NOT_XML_CHAR = re.compile("[^\t\n\r\x20-\ud7ff\ue000-\ufffd\U00010000-\U0010ffff]")
 
 FORMATTER = HTMLFormatter()
